@@ -192,7 +192,14 @@ def _check_unrestriction(ctx, cu, mo_cls):
                 bad = "occs_aminusb is set on unrestricted orbitals"
             else:
                 for view in ("occsa", "occsb", "coeffsa", "coeffsb", "energiesa", "energiesb", "irrepsa", "irrepsb", "nelec", "spinpol", "norba", "norbb"):
-                    a, b = ev().get(ref, view), ev().get(new, view)
+                    try:
+                        a, b = ev().get(ref, view), ev().get(new, view)
+                    except NotSymbolic as exc:
+                        if kw.get("aminusb", "sym") == "sym" and kw.get("occs", "sym") == "sym":
+                            # a value-dependent accessor on symbolic occupations: the constant patterns decide this view
+                            ctx.note(f"convert_to_unrestricted ({label}): `{view}` not decidable on symbols ({exc}); decided on the constant occupation patterns")
+                            continue
+                        raise
                     if view.startswith("irreps") and a is not None and b is not None:
                         a, b = list(a), list(b)
                     if not _eq(a, b):
